@@ -364,7 +364,9 @@ class SafeLearner(Learner):
                 pred = list(pred.values())[0]
 
             if self._pred_format[:2] == 'PM':
-                A, P = list(map(list, zip(*map(self._rng.choicew,actions, pred))))
+                #an explicit {'pmf':...} holds one pmf per row while a bare pmf batch holds one column per action
+                pmfs = pred if self._pred_format.endswith('*') else list(zip(*pred))
+                A, P = list(map(list, zip(*map(self._rng.choicew,actions, pmfs))))
 
             if self._pred_format[:2] == 'AX':
                 A = pred
